@@ -312,11 +312,30 @@ func checkSufficient(text string, ast *ref.Node) (msg string, applicable bool) {
 	}
 	// the two maps share the very same value objects (so addresses inside formatted values agree)
 	built := spec.BuildMap(c10World(), &spec.Recorder{})
+	// the full map also carries entries the formula does not reference: top-level keys spelled like the reported
+	// dotted paths and their prefixes, and unrelated junk; "agree on the top-level names" says these cannot matter
+	junk := map[string]interface{}{"zzUnrelated": 12345, "$zzLocal": "junk", "this": "junk", "null": "junk"}
+	for _, f := range fields {
+		parts := strings.Split(f, ".")
+		for k := 2; k <= len(parts); k++ {
+			junk[strings.Join(parts[:k], ".")] = "JUNK:" + f
+		}
+		if len(parts) > 1 {
+			junk[parts[len(parts)-1]+"_"] = "JUNK"
+		}
+	}
 	run := func(restrict bool) obs.EvalOut {
 		data := map[string]interface{}{}
 		for k, v := range built {
 			if !restrict || keep[k] {
 				data[k] = v
+			}
+		}
+		if !restrict {
+			for k, v := range junk {
+				if _, exists := data[k]; !exists && !keep[k] {
+					data[k] = v
+				}
 			}
 		}
 		r := formula.NewRunner()
